@@ -29,8 +29,11 @@ def lossy_glob(b):
 
 def gen_scenario(r, hostile_p=0.3, ops=None, allow_symlinks=True, for_model=False):
     n_roots = r.choice([1, 1, 2, 2, 3])
+    # one scenario in seven also has empty files and a report made with --min 0 (lock files, placeholders)
+    min0 = r.random() < 0.15
     spec, meta = tree.gen_dup_tree(r, n_classes=r.randrange(2, 6), max_members=5, hostile_p=hostile_p if r.random() < 0.6 else 0.0,
-                                   n_dirs=r.randrange(0, 5), lens=[1, 3, 100, 4096, 5000, 20000], decoys=r.random() < 0.5,
+                                   n_dirs=r.randrange(0, 5), lens=([0, 0] if min0 else []) + [1, 3, 100, 4096, 5000, 20000],
+                                   min_len=0 if min0 else 1, decoys=r.random() < 0.5,
                                    roots=n_roots, hardlinks=True, ws_twins=0.3, prefix_roots=(n_roots >= 2 and r.random() < 0.3))
     if r.random() < 0.2:
         # give some files a name that is not valid UTF-8 (name patterns still apply to them, through the lossy form)
@@ -47,7 +50,7 @@ def gen_scenario(r, hostile_p=0.3, ops=None, allow_symlinks=True, for_model=Fals
                 c["members"] = [dn + "/" + nn if m == e["p"] else m for m in c["members"]]
             e["p"] = dn + "/" + nn
     g = {"hash_fn": r.choice(["metro", "blake3", "xxhash"]), "kind": None, "max_prefix": None, "max_suffix": None,
-         "threads": None, "cache": None, "transform": None, "match_links": False, "rf": None, "min0": False, "fs": "ext4"}
+         "threads": None, "cache": None, "transform": None, "match_links": False, "rf": None, "min0": min0, "fs": "ext4"}
     if r.random() < 0.2:
         g["match_links"] = True
     sym = False
